@@ -40,6 +40,19 @@ def printNg (ng : Model.NameGen) : String :=
 
 def lst (s : String) : List String := if s == "-" then [] else splitList s
 
+def cj (xs : List String) : String := if xs.isEmpty then "-" else commaJoin xs
+
+def showM {α : Type} (r : Model.M α) (f : α → String) : String :=
+  match r with
+  | .ok a => "ok " ++ f a
+  | .error e => "abort " ++ e.toString
+
+def showSetMap (m : Model.SetMap) : String :=
+  if m.isEmpty then "-" else ";".intercalate (m.map fun p => p.1 ++ ":" ++ cj (Model.sortNames p.2))
+
+def showPairs (m : List (Name × Name)) : String :=
+  if m.isEmpty then "-" else ";".intercalate (m.map fun p => p.1 ++ ":" ++ p.2)
+
 def reply (st : DState) (r : Model.M Model.St) (extra : String := "") : DState × String :=
   match r with
   | .ok m => ({ st with m := m }, s!"ok {printHier m.H} {printNg m.ng}{extra}")
@@ -102,6 +115,37 @@ def step (st : DState) (line : String) : DState × String :=
   | ["PREFIXOK", reqs] => match parseReqs reqs with
     | .ok rs => (st, bit (Model.prefixesOK rs))
     | .error _ => (st, "bad-request")
+  | ["Q", "find_head", c] => (st, showM (Model.findHead st.h c) id)
+  | ["Q", "headers_entries", c, sub] =>
+    (st, showM (Model.headersEntries st.h (st.h.length + 2) c (lst sub)) fun r => s!"{cj r.1} {cj r.2}")
+  | ["Q", "exiting_exits", c, sub] =>
+    (st, showM (Model.exitingExits st.h c (lst sub)) fun r => s!"{cj r.1} {cj r.2}")
+  | ["Q", "reach", c, a, b] => (st, showM (Model.reachDfs st.h c a b) bit)
+  | ["Q", "scc", c] => (st, showM (Model.computeScc st.h c) fun r =>
+      if r.isEmpty then "-" else ";".intercalate (r.map fun s => cj (Model.sortNames s)))
+  | ["Q", "doms", c] => (st, showM (Model.doms st.h c) showSetMap)
+  | ["Q", "pdoms", c] => (st, showM (Model.postDoms st.h c) showSetMap)
+  | ["Q", "imm", c] => (st, showM (Model.doms st.h c >>= Model.immDoms) showPairs)
+  | ["Q", "immp", c] => (st, showM (Model.postDoms st.h c >>= Model.immDoms) showPairs)
+  | ["R", "reach", c, a, b] => (st, "ok " ++ bit (Spec.reachRef (st.h.level c) a b))
+  | ["R", "scc", c] =>
+    let r := Spec.sccRef (st.h.level c)
+    (st, "ok " ++ if r.isEmpty then "-" else ";".intercalate (r.map cj))
+  | ["R", "doms", c] => (st, "ok " ++ showSetMap (Spec.domsRef (st.h.level c)))
+  | ["R", "pdoms", c] => (st, "ok " ++ showSetMap (Spec.postDomsRef (st.h.level c)))
+  | ["R", "imm", c] => (st, "ok " ++ showPairs (Spec.immRef (Spec.domsRef (st.h.level c))))
+  | ["R", "immp", c] => (st, "ok " ++ showPairs (Spec.immRef (Spec.postDomsRef (st.h.level c))))
+  | ["R", "find_head", c] => (st, match Spec.headRef (st.h.level c) with
+      | some h => "ok " ++ h
+      | none => "none")
+  | ["R", "headers_entries", c, sub] =>
+    (st, s!"ok {cj (Spec.headersRef (st.h.level c) (lst sub))} {cj (Spec.entriesRef (st.h.level c) (lst sub))}")
+  | ["R", "exiting_exits", c, sub] =>
+    (st, s!"ok {cj (Spec.exitingRef (st.h.level c) (lst sub))} {cj (Spec.exitsRef (st.h.level c) (lst sub))}")
+  | ["SPEC", "iter", c, out] => (st, bit (Spec.iterSpecOK st.h c (lst out)))
+  | ["SPEC", "view", c, out] => (st, bit (Spec.viewSpecOK st.h c (lst out)))
+  | ["IT", "iter", c] => (st, showM (Model.iterAll st.h (st.h.length + 2) c) cj)
+  | ["IT", "view", c] => (st, showM (Model.viewIter st.h c) cj)
   | ["S", h, ng] => match parseHier h, parseNg ng with
     | .ok hh, .ok n => ({ st with m := { H := hh, ng := n } }, "ok")
     | .error e, _ => (st, s!"parse-error {e}")
